@@ -477,9 +477,19 @@ ModelFails(c) == LET s == Run(c) IN IF s.pc = "dead" THEN {} ELSE Failures(c, s.
 \* ---------------------------------------------------------------------------------------------
 \* the machine
 
+\* (the signature and the argument plans are derived in an action of their own, not in Init: TLC computes initial states
+\*  on one thread, successor states on all of them)
 Init ==
-  /\ \E op \in Ops : \E S \in Plans(op, SigOf(op)) : call = SynthCall(op, S)
-  /\ pc = "process" /\ env = Env0(call) /\ req = NoReq /\ verdict = {}
+  /\ \E op \in Ops : call = [op |-> op, sig |-> <<>>, plan |-> {}, args |-> <<>>, reqs |-> <<>>,
+                              raised |-> [exc |-> "", msgclass |-> ""], suspects |-> <<>>]
+  /\ pc = "init" /\ env = <<>> /\ req = NoReq /\ verdict = {}
+
+\* choose which optional arguments the caller supplies
+Plan ==
+  /\ pc = "init"
+  /\ \E S \in Plans(call.op, SigOf(call.op)) : call' = SynthCall(call.op, S)
+  /\ env' = Env0(call') /\ pc' = "process"
+  /\ UNCHANGED <<req, verdict>>
 
 Cur == [pc |-> pc, env |-> env, req |-> req]
 Apply == LET s == Step(call, Cur) IN pc' = s.pc /\ env' = s.env /\ req' = s.req /\ UNCHANGED <<call, verdict>>
@@ -508,14 +518,14 @@ Judge ==
         PrintT("DESIGN " \o ToJson([id |-> call.op.id, fails |-> SetToSeq({[clause |-> f.clause, locus |-> f.locus] : f \in verdict'})]))
   /\ UNCHANGED <<call, env, req>>
 
-Next == Process \/ BindPath \/ BindQuery \/ BindHeader \/ BindCookie \/ BindBody \/ Dispatch \/ Send \/ Judge
+Next == Plan \/ Process \/ BindPath \/ BindQuery \/ BindHeader \/ BindCookie \/ BindBody \/ Dispatch \/ Send \/ Judge
 Spec == Init /\ [][Next]_vars
 
 \* ---------------------------------------------------------------------------------------------
 \* properties
 
 TypeOK ==
-  /\ pc \in {"process", "path", "query", "header", "cookie", "body", "dispatch", "send", "judge", "done", "dead"}
+  /\ pc \in {"init", "process", "path", "query", "header", "cookie", "body", "dispatch", "send", "judge", "done", "dead"}
   /\ call.op.method \in Methods /\ call.op.body.kind \in BodyKinds
   /\ \A i \in DOMAIN call.op.params : call.op.params[i].in \in Locations /\ call.op.params[i].type \in Types /\ call.op.params[i].shape \in Shapes
   /\ req.n \in {0, 1}
